@@ -91,8 +91,8 @@ def check_accumulator(out, facts):
         if g['kind'] == 'AssocFn' and g['ctx'] == 'inherent_impl' and 'MemTrackingInput' in g['self'] and g['method'] == 'new':
             evl = sym.Evaluator(facts)
             ctx = sym.Ctx(evl, g)
-            for p in g['params']:
-                ctx.env[p['v']] = ('param', p['name'], p.get('ty'))
+            for pi, p in enumerate(g['params']):
+                ctx.env[p['v']] = ('param', ['input', 'mem_limit'][pi] if pi < 2 else p['name'], p.get('ty'))
             v, t = evl.ev(g['thir'], ctx)
             out.ob('R12.1', 'MemTrackingInput::new [%s]' % cfg, sym.vstr(v) == 'MemTrackingInput::MemTrackingInput{0: input, 1: 0:usize, 2: mem_limit}',
                    'new() is not {input, used_mem: 0, mem_limit}: ' + sym.vstr(v), g['loc'])
@@ -101,7 +101,7 @@ def check_accumulator(out, facts):
         out.fail('R12.1', 'decode_with_mem_limit [%s]' % cfg, 'blanket impl not found', '-')
     else:
         g = fl[0]
-        t, v, ev = wire.infer_decoder_fn(facts, g)
+        t, v, ev = wire.infer_decoder_fn(facts, g, roles={0: ('input',), 1: ('param', 'mem_limit', 'usize')})
         decs = [e for e in events(t) if e[0] == 'dec']
         ok = len(decs) == 1 and decs[0][3] == 'wrapped_input' and [e[0] for e in events(t)] == ['dec']
         if ok:
